@@ -80,6 +80,9 @@ pub enum Op {
     /// n lookups of n distinct keys that are never written (misses), each batch applied by the
     /// policy worker as soon as it is queued
     GetWide { n: u16, base: u16 },
+    /// n inserts (cost 1, the given TTL) of n distinct keys outside the key table; the buffer is
+    /// drained every 32 inserts
+    BulkWide { n: u16, ttl: i64 },
     UpdateMaxCost { m: i64 },
     /// `pre`: insert-arm steps the processor takes before the clear arm, should clear() wait
     Clear { pre: usize },
@@ -855,7 +858,9 @@ impl<'a> Interp<'a> {
         }
         // values resident under the wrong index
         for e in snap.entries.iter() {
-            let (idx, _) = self.key(e.value.key as u64);
+            // (a value carries the low 32 bits of its logical key; keys outside the table start at 1e6)
+            let logical = if e.value.key >= 1_000_000 { WIDE + e.value.key as u64 } else { e.value.key as u64 };
+            let (idx, _) = self.key(logical);
             if idx != e.index {
                 let msg = format!("{}: value {} stored under index {}", what, e.value, e.index);
                 self.fail("value_under_wrong_key", &["C02", "C18"], msg);
@@ -2487,7 +2492,20 @@ impl<'a> Interp<'a> {
             Op::Remove { k } => self.op_remove(*k % self.nkeys()),
             Op::Get { k } => self.op_get(*k % self.nkeys(), false, None),
             Op::GetMut { k, write } => self.op_get(*k % self.nkeys(), true, *write),
+            // (keys outside the table need the table key builder)
+            Op::GetWide { .. } | Op::BulkWide { .. } if self.cfg.defaults => {}
             Op::GetWide { n, base } => self.op_get_wide(*n, *base),
+            Op::BulkWide { n, ttl } => {
+                for i in 0..*n as u64 {
+                    self.op_insert(WIDE + 7_000_000 + i, 1, *ttl, 1, false);
+                    if i % 32 == 31 {
+                        self.drain(false);
+                    }
+                    if self.halted {
+                        break;
+                    }
+                }
+            }
             Op::Bulk { n } => {
                 let nk = self.nkeys();
                 for i in 0..*n as u64 {
@@ -2526,7 +2544,7 @@ impl<'a> Interp<'a> {
         }
         let is_client = matches!(
             op,
-            Op::Insert { .. } | Op::Bulk { .. } | Op::InsertIfPresent { .. } | Op::Remove { .. } | Op::Get { .. } | Op::GetWide { .. } | Op::GetHold { .. } | Op::GetMut { .. } | Op::UpdateMaxCost { .. } | Op::Clear { .. }
+            Op::Insert { .. } | Op::Bulk { .. } | Op::InsertIfPresent { .. } | Op::Remove { .. } | Op::Get { .. } | Op::GetWide { .. } | Op::BulkWide { .. } | Op::GetHold { .. } | Op::GetMut { .. } | Op::UpdateMaxCost { .. } | Op::Clear { .. }
         );
         if quiesce && is_client {
             self.drain(false);
